@@ -133,6 +133,7 @@ var libCalls = map[string]struct {
 	"strings.TrimSuffix":     {"Gen.trimSuffix", []trType{tStr, tStr}, tStr},
 	"userNameRe.MatchString": {"Gen.userNameReMatch", []trType{tStr}, tBool},
 	"strings.Split":          {"Gen.stringsSplit", []trType{tStr, tStr}, tList},
+	"strings.Fields":         {"Gen.stringsFields", []trType{tStr}, tList},
 }
 
 // library calls with two results (used in `a, b := f(..)`): lean function returning a pair
@@ -144,6 +145,8 @@ var libCalls2 = map[string]struct {
 	"strings.CutSuffix": {"Gen.cutSuffix", []trType{tStr, tStr}, [2]trType{tStr, tBool}},
 	// the data result on an error is not modelled (empty): the translated callers return before using it
 	"base64.URLEncoding.DecodeString": {"Gen.b64urlDecode", []trType{tStr}, [2]trType{tBytes, tErr}},
+	// (value on an error not modelled: the translated callers return before using it)
+	"strconv.ParseUint": {"Gen.parseUint", []trType{tStr, tNat, tNat}, [2]trType{tNat, tErr}},
 }
 
 // typeOf: the type of an expression of the subset as far as comparisons and switch tags need it.
@@ -567,6 +570,14 @@ func (t *translator) stmts(list []ast.Stmt, ind string) string {
 			return fmt.Sprintf("(match dec %d with\n%s| none =>\n%s  %s\n%s| some ps =>\n%s  %s)", size, ind, ind, bad, ind, ind, good)
 		}
 	}
+	if x, ok := head.(*ast.IfStmt); ok {
+		if as, ok := x.Init.(*ast.AssignStmt); ok && as.Tok == token.ASSIGN {
+			// `if a, b = f(..); cond {…}`: no new names, so this is the assignment followed by the if
+			y := *x
+			y.Init = nil
+			return t.stmts(append([]ast.Stmt{as, &y}, rest...), ind)
+		}
+	}
 	switch x := head.(type) {
 	case *ast.IfStmt:
 		if as, ok := x.Init.(*ast.AssignStmt); ok && as.Tok == token.DEFINE && markInit(as) {
@@ -891,6 +902,11 @@ func fileStructs(f *ast.File) map[string][]structField {
 			var fs []structField
 			for _, fl := range st.Fields.List {
 				ty, ok := goType(fl.Type)
+				if _, isFunc := fl.Type.(*ast.FuncType); isFunc {
+					// a field holding one of a few named functions: which one (an enumeration given by the
+					// constants of the translation; 0 = nil)
+					ty, ok = tNat, true
+				}
 				if !ok {
 					continue
 				}
@@ -952,6 +968,7 @@ func translateWith(f *ast.File, fset *token.FileSet, recv, name, leanName, failT
 	}
 	t := &translator{consts: consts, sconsts: sconsts, vars: map[string]trType{}, structs: fileStructs(f), structVars: map[string]string{}, flatBytes: flat, funcParams: funcs}
 	var params, ptypes, rtypes []string
+	var structResults []string
 	addStruct := func(v, ty string) {
 		t.structVars[v] = ty
 		for _, fl := range t.structs[ty] {
@@ -1011,6 +1028,20 @@ func translateWith(f *ast.File, fset *token.FileSet, recv, name, leanName, failT
 		}
 		if fd.Type.Results != nil {
 			for _, r := range fd.Type.Results.List {
+				if id, isId := r.Type.(*ast.Ident); isId && len(r.Names) == 1 {
+					if fs, isStruct := t.structs[id.Name]; isStruct {
+						// a named result of a struct type of the file: its fields are variables (zero at
+						// the start) and are appended to every result tuple, after the other results
+						rv := r.Names[0].Name
+						t.structVars[rv] = id.Name
+						for _, fl := range fs {
+							n := rv + "_" + fl.name
+							t.vars[n] = fl.ty
+							structResults = append(structResults, n)
+						}
+						continue
+					}
+				}
 				ty, ok := goType(r.Type)
 				if _, isPtr := t.pointerTo(r.Type); isPtr {
 					ty, ok = tOpaque, true
@@ -1034,6 +1065,9 @@ func translateWith(f *ast.File, fset *token.FileSet, recv, name, leanName, failT
 				}
 			}
 		}
+		for _, n := range structResults {
+			t.outs = append(t.outs, leanIdent(n))
+		}
 		for _, o := range t.outs {
 			rtypes = append(rtypes, leanTy[t.vars[strings.Trim(o, "«»")]])
 		}
@@ -1042,6 +1076,10 @@ func translateWith(f *ast.File, fset *token.FileSet, recv, name, leanName, failT
 	if t.err == "" {
 		// named results start at their zero values
 		prefix := ""
+		for _, n := range structResults {
+			zero := map[trType]string{tNat: "(0 : Int)", tBool: "false", tErr: "false", tStr: "[]", tOpaque: "false", tBytes: "[]"}[t.vars[n]]
+			prefix += fmt.Sprintf("let %s : %s := %s\n    ", leanIdent(n), leanTy[t.vars[n]], zero)
+		}
 		for i, n := range t.resNames {
 			if n == "" {
 				continue
